@@ -23,6 +23,7 @@ pub mod ws_dispatch;
 pub mod ws_lifecycle;
 pub mod ws_limits;
 pub mod ws_offreader;
+pub mod ws_registry;
 
 pub fn all() -> &'static [Family] {
     static ALL: std::sync::OnceLock<Vec<Family>> = std::sync::OnceLock::new();
@@ -42,6 +43,7 @@ pub fn all() -> &'static [Family] {
         v.extend(ws_offreader::families());
         v.extend(ws_lifecycle::families());
         v.extend(ws_limits::families());
+        v.extend(ws_registry::families());
         v.extend(ws_client::families());
         v.extend(ws_dispatch::families());
         v.extend(svs_async::families());
